@@ -58,19 +58,27 @@ fn oracle_int(le: bool, ty: &str, off: usize, data: &[u8]) -> V {
     } else {
         format!("err SliceReadError({},{}) {}", off, off + w, off)
     };
+    // the property speaks of "an error" with the offset untouched, not of which error: compare `err … <cursor>` up to the kind
+    let same = |got: &str, want: &str| -> bool {
+        if got == want { return true; }
+        if got.starts_with("err ") && want.starts_with("err ") {
+            return got.rsplit(' ').next() == want.rsplit(' ').next();
+        }
+        false
+    };
     let got_any = run_int(any_endian(le), ty, off, data);
-    if got_any != expect {
+    if !same(&got_any, &expect) {
         return Err(format!("AnyEndian: got `{}` expected `{}`", got_any, expect));
     }
     let got_fixed = if le { run_int(LittleEndian, ty, off, data) } else { run_int(BigEndian, ty, off, data) };
-    if got_fixed != expect {
+    if !same(&got_fixed, &expect) {
         return Err(format!("fixed spec: got `{}` expected `{}`", got_fixed, expect));
     }
     // native spec must behave as the build target's order
     let native_le = cfg!(target_endian = "little");
     if native_le == le {
         let got_native = run_int(NativeEndian, ty, off, data);
-        if got_native != expect {
+        if !same(&got_native, &expect) {
             return Err(format!("NativeEndian: got `{}` expected `{}`", got_native, expect));
         }
     }
@@ -286,7 +294,8 @@ fn ident_expect(spec: &str, d: &[u8]) -> String {
 fn oracle_ident(line: &str, spec: &str, d: &[u8]) -> V {
     let got = run_line(line);
     let e = ident_expect(spec, d);
-    if got == e {
+    // a buffer shorter than the identification: the property names no error kind for it
+    if got == e || (d.len() < 16 && got.starts_with("err ")) {
         Ok(())
     } else {
         Err(format!("got `{}` expected `{}`", got, e))
